@@ -129,39 +129,7 @@ def run(ck, models, tier):
                             ty = None
         ck.ob("R12.2", "guard-single-construction", tm.target, nagg == 1 and nassign == 0,
               "%d aggregate construction site(s) of %s and %d direct field assignment(s) in the crate" % (nagg, short(g.adt), nassign))
-        # ---------------- R12.3 release call sites crate-wide
-        allocs = set(allocator_fns(tm))
-        nfree = 0
-        for b in tm.facts.fn_bodies():
-            for name, foreign, local, t in tm.facts.callees_of(b):
-                if name in FREE_FFI:
-                    nfree += 1
-                    ok = b["path"] in allocs or b["path"] == g.drop_fn
-                    ck.ob("R12.3", "release-site/%s" % short(b["path"]), tm.target, ok,
-                          "%s is called in %s (%s)" % (short(name), b["path"], "allocator reject edge / guard destructor" if ok else "NOT an owner of mappings"),
-                          "%s:%d" % (t["span"]["file"], t["span"]["line"]))
-        ck.floor("R12.3", "release-sites", nfree, 1 if tm.arch == "arm" else 2, tm.target)
-        for p in allocs:
-            try:
-                vs = allocator_variants(tm, p)
-            except Exception as e:
-                ck.ob("R12.3", "allocator/%s/analysable" % short(p), tm.target, False, "allocator could not be analysed: %s" % e)
-                continue
-            for v in vs:
-                frees = [e for e in v.trace if e.kind == "ffi" and e.name in FREE_FFI]
-                maps = [e for e in v.trace if e.kind == "ffi" and e.name in ALLOC_FFI]
-                if v.status == "returned":
-                    ck.ob("R12.3", "allocator/%s/accepted-not-released" % short(p), tm.target, not frees,
-                          "accepting path releases %d mapping(s)" % len(frees))
-                for f in frees:
-                    okp = maps and isinstance(f.args[0], Int) and same_expr(f.args[0].e, maps[-1].ret.e)
-                    if tm.os == "windows":
-                        oks = f.args[1].is_const() and f.args[1].cval() == 0
-                    else:
-                        oks = same_expr(f.args[1].e, maps[-1].args[1].e) if maps else False
-                    ck.ob("R12.3", "allocator/%s/reject-releases-own-mapping" % short(p), tm.target, bool(okp and oks),
-                          "reject edge calls %s(%s, %s) for the mapping %s of size %s" % (short(f.name), fmt(f.args[0].e, 3), fmt(f.args[1].e, 3),
-                                                                                            fmt(maps[-1].ret.e, 3) if maps else "?", fmt(maps[-1].args[1].e, 3) if maps else "?"), where(f))
+        release_rules(ck, tm, g, "R12.3")
         for key, m in list(tm.machines.items()):
             for f in m.entered:
                 ck.analysed_fn(tm.target, f)
